@@ -50,5 +50,20 @@ let handle line =
                (int_of_n mm.m_vmaj) (int_of_n mm.m_vmin) (string_of_bool_01 mm.m_close)
                (List.length mm.m_headers) (if hl = "" then "." else hl) (hex_of_bytes e.r_data) (string_of_bool_01 ok)))
      | _ -> "BADREQ")
+  | ["RS"; v11; ka; hd; status; len; ch; fc] ->
+    (* RS <v11> <request.keep_alive> <HEAD> <status> <content-length | -> <chunked> <force_close>
+       -> REFUSED | HEAD <cl | -> <te 0|1> <conn n|c|k> <server keeps open> <client close> <client waits for EOF> *)
+    let b x = (x = "1") in
+    let c = { q_v11 = b v11; q_keep_alive = b ka; q_head = b hd } in
+    let r = { p_status = n_of_int (int_of_string status);
+              p_length = (if len = "-" then None else Some (n_of_int (int_of_string len)));
+              p_chunked = b ch; p_force_close = b fc } in
+    (match server_prepare c r with
+     | SRefused -> "REFUSED"
+     | SHead (h, keeps) ->
+       Printf.sprintf "HEAD %s %s %s %s %s %s"
+         (match h.h_cl with None -> "-" | Some n -> string_of_int (int_of_n n))
+         (string_of_bool_01 h.h_te) (match h.h_conn with CNone -> "n" | CClose -> "c" | CKeepAlive -> "k")
+         (string_of_bool_01 keeps) (string_of_bool_01 (client_close h)) (string_of_bool_01 (client_waits_eof (b hd) h)))
   | _ -> "BADREQ"
 let () = serve handle
